@@ -103,6 +103,9 @@ func execTreap(kind string, ops []string) string {
 			}
 			nver++
 			out = "ok"
+			if it != nil {
+				it.ForceReseek() // as ffldb's notifyActiveIters does
+			}
 		case "b":
 			var kvs []veriftreap.KVPair
 			for _, item := range strings.Split(f[1], "/") {
@@ -118,6 +121,9 @@ func execTreap(kind string, ops []string) string {
 			}
 			nver++
 			out = "ok"
+			if it != nil {
+				it.ForceReseek()
+			}
 		case "d":
 			if kind == "imm" {
 				imm = append(imm, imm[len(imm)-1].Delete(unhx(f[1])))
@@ -126,6 +132,9 @@ func execTreap(kind string, ops []string) string {
 			}
 			nver++
 			out = "ok"
+			if it != nil {
+				it.ForceReseek()
+			}
 		case "g":
 			out = valStr(ver(f[1]).Get(unhx(f[2])))
 		case "h":
@@ -221,7 +230,7 @@ func genTreapLine(r *core.Rand, kind string, nops int) (string, bool) {
 			nver++
 			live++
 			muts++
-			haveIter = haveIter && kind == "imm"
+			haveIter = haveIter && true
 		case c < 7:
 			var items []string
 			for i := 1 + r.Intn(6); i > 0; i-- {
@@ -230,12 +239,12 @@ func genTreapLine(r *core.Rand, kind string, nops int) (string, bool) {
 			ops = append(ops, "b:"+strings.Join(items, "/"))
 			nver++
 			muts++
-			haveIter = haveIter && kind == "imm"
+			haveIter = haveIter && true
 		case c < 10:
 			ops = append(ops, "d:"+hx(pick()))
 			nver++
 			muts++
-			haveIter = haveIter && kind == "imm"
+			haveIter = haveIter && true
 		case c < 12:
 			ops = append(ops, fmt.Sprintf("g:%d:%s", rv(), hx(pick())))
 		case c < 13:
